@@ -101,6 +101,10 @@ class Dither(PreProcessor):
             random_shape = [1] * len(signal.shape)
             random_shape[axis] = signal.shape[axis]
             signal += np.random.normal(0, self.coeff, random_shape)
+        if np.issubdtype(signal_dtype, np.integer):
+            # the cast below truncates towards zero, which would bias the noise by half
+            # a step against the sign of each sample
+            np.rint(signal, out=signal)
         return signal.astype(signal_dtype, copy=False)
 
 
